@@ -33,8 +33,15 @@ Record cfg := mkcfg {
   g_nbsimu : Z;
   g_mode : Z;                     (* variant inside a calculator class (see each instance) *)
   g_n : Z;                        (* nfact / nsel / nvarMorpho ... *)
-  g_has_in : bool                 (* dbin != nullptr *)
+  g_has_in : bool;                (* dbin != nullptr *)
+  (* version of the code, read in the source by checks/C19.py on every run (tiny translators): *)
+  g_rb2 : bool;                   (* the _rollback of this calculator also calls _cleanVariableDb(2) *)
+  g_ver : Z                       (* bit 0: CalcKrigingFactors::_rollback gives the Z and X locators back (fixes/C19_6.patch)
+                                     bit 1: _expandInformation(+1) registers what it creates as temporary variables of dbin and
+                                            CalcSimuTurningBands::_postprocess no longer calls _expandInformation(-1) (C19_7)
+                                     bit 2: simulations save / give back the pre-existing SIMU locators (C19_8) *)
 }.
+Definition ver_bit (c : cfg) (k : Z) : bool := Z.testbit (g_ver c) k.
 
 Definition K {A} (x : A) : st -> A := fun _ => x.
 Definition no_names : st -> list str := fun _ => [].
@@ -57,12 +64,12 @@ Definition check_interp (c : cfg) (s : st) : bool :=
 
 (* ACalcInterpolator::_preprocess (ACalcInterpolator.cpp:183) *)
 Definition pre_interp (c : cfg) : list op :=
-  (if (0 <? g_mndim c) && (0 <? g_nfex c) then [OExpand 1 L_F] else []) ++ [OExpand 1 L_NOSTAT].
+  (if (0 <? g_mndim c) && (0 <? g_nfex c) then [OExpand 1 L_F (ver_bit c 1)] else []) ++ [OExpand 1 L_NOSTAT (ver_bit c 1)].
 
-(* _rollback of every calculator: _cleanVariableDb(1) and, since fixes C19_1/3/4, _cleanVariableDb(2);
-   CalcKriging and CalcSimuTurningBands also give the coordinate locators back (DGM) *)
-Definition rollback_std (restore_x : bool) : list op :=
-  [OClean 1; OClean 2] ++ (if restore_x then [ORestoreX] else []).
+(* _rollback: _cleanVariableDb(1); _cleanVariableDb(2) where the source has it (fixes C19_1/3/4: CalcKriging,
+   CalcSimuTurningBands, CalcGridToGrid); CalcKriging and CalcSimuTurningBands then give the coordinate locators back (DGM) *)
+Definition rollback_std (c : cfg) (restore_x : bool) : list op :=
+  [OClean 1] ++ (if g_rb2 c then [OClean 2] else []) ++ (if restore_x then [ORestoreX] else []).
 
 (* ---------------------------------------------------------------- CalcKriging (CalcKriging.cpp)
    slots: 0 _iptrEst, 1 _iptrStd, 2 _iptrVarZ, 3 _iptrNeigh *)
@@ -80,7 +87,7 @@ Definition kriging_pre (c : cfg) (gout : bool) : list op :=
   (if g_std c then [OAdd WOut status (-1) nv (Cst 1) 1%nat] else []) ++
   (if g_varz c then [OAdd WOut status (-1) nv (Cst 1) 2%nat] else []) ++
   (if g_neigh_only c then [OAdd WOut status (-1) (K (g_nbneigh c)) (Cst 1) 3%nat] else []) ++
-  (if g_dgm c && gout then [OSaveX; OCenter] else []).
+  (if g_dgm c && gout then [OCenter] else []).
 
 Definition rn (names : st -> list str) (tin : Z) (n : st -> Z) (slot : nat) (off : Z) (q : str) (fl : bool) : op :=
   ORename WOut names tin n slot off q (K 1) fl.
@@ -109,8 +116,8 @@ Definition kriging_post (c : cfg) : list op :=
      [rn lc (-1) nv 2%nat 0 s_varz true; rn lc (-1) nv 1%nat 0 s_stdev true; rn lc (-1) nv 0%nat 0 s_estim true]).
 
 Definition kriging (c : cfg) (gout : bool) : calc :=
-  mkcalc (g_nc c) (kriging_check c gout) (kriging_pre c gout) [OBody 3] (kriging_post c)
-         (rollback_std (g_dgm c)).
+  mkcalc (g_nc c) [] (kriging_check c gout) (kriging_pre c gout) [OBody 3] (kriging_post c)
+         (rollback_std c (g_dgm c)).
 
 (* ---------------------------------------------------------------- CalcMigrate (CalcMigrate.cpp:622-670)
    slot 0 _iattOut *)
@@ -118,12 +125,12 @@ Definition migrate_check (c : cfg) (s : st) : bool :=
   check_dbtodb false true s && negb (is_nil (g_iuids c)) && g_extra_ok c.
 Definition migrate (c : cfg) : calc :=
   let nv := K (zlen (g_iuids c)) in
-  mkcalc (g_nc c) (migrate_check c)
+  mkcalc (g_nc c) [] (migrate_check c)
     [OAdd WOut 1 (-1) nv (Cst 0) 0%nat]
     [OBody 3]
     (OClean 2 :: ORename WOut (fun s => names_by_uids (getdb WIn s) (g_iuids c)) (-1) nv 0%nat 0 [] (K 1) true ::
      (if g_locate c then [OSetLocs WOut 0%nat nv (g_loctype c)] else []))
-    (rollback_std false).
+    (rollback_std c false).
 
 (* ---------------------------------------------------------------- CalcStatistics (CalcStatistics.cpp:43-108)
    g_mode 0: dbStatisticsOnGrid (_flagStats), 1: dbRegression (_flagRegr) *)
@@ -132,12 +139,12 @@ Definition stats_check (c : cfg) (gout : bool) (s : st) : bool :=
   (if g_mode c =? 0 then gout else true) && g_extra_ok c.
 Definition nvar_in : st -> Z := fun s => locnum (getdb WIn s) L_Z.
 Definition stats (c : cfg) (gout : bool) : calc :=
-  mkcalc (g_nc c) (stats_check c gout)
+  mkcalc (g_nc c) [] (stats_check c gout)
     (if g_mode c =? 0 then [OAdd WOut 1 (-1) nvar_in (Cst 0) 0%nat] else [OAdd WIn 1 (-1) (K 1) (Cst 0) 0%nat])
     [OBody 3]
     (OClean 2 :: (if g_mode c =? 0 then [ORename WOut no_names L_Z nvar_in 0%nat 0 [] (K 1) true]
                   else [ORename WIn no_names L_Z (K 1) 0%nat 0 [] (K 1) true]))
-    (rollback_std false).
+    (rollback_std c false).
 
 (* ---------------------------------------------------------------- CalcAnamTransform (CalcAnamTransform.cpp:152-313)
    ACalcDbVarCreator: one Db (= WIn here).  g_mode 0: _flagVars (rawToGaussianByLocator, and gaussianToRawByLocator
@@ -148,13 +155,13 @@ Definition stats (c : cfg) (gout : bool) : calc :=
 Definition anam_check (c : cfg) (s : st) : bool :=
   (0 <? locnum (getdb WIn s) L_Z) && (if g_mode c =? 1 then locnum (getdb WIn s) L_Z =? 1 else true) && g_extra_ok c.
 Definition anam (c : cfg) : calc :=
-  mkcalc (g_nc c) (anam_check c)
+  mkcalc (g_nc c) [] (anam_check c)
     (if g_mode c =? 0 then [OAdd WIn 1 (-1) nvar_in (Cst 1) 0%nat] else [OAdd WIn 1 (-1) (K (g_n c)) (Cst 1) 1%nat])
     [OBody 3]
     (OClean 2 ::
      (if g_mode c =? 0 then [ORename WIn no_names L_Z nvar_in 0%nat 0 [] (K 1) true]
       else [ORename WIn no_names L_Z (K 1) 1%nat 0 [] (K (g_n c)) true]))
-    (rollback_std false).
+    (rollback_std c false).
 
 (* ---------------------------------------------------------------- CalcSimuTurningBands (CalcSimuTurningBands.cpp:2164-2276)
    slot 0 _iattOut *)
@@ -162,50 +169,50 @@ Definition simtub_check (c : cfg) (gout : bool) (s : st) : bool :=
   check_interp c s && (0 <? g_nbsimu c) && g_extra_ok c && (negb (g_dgm c) || gout).
 Definition simtub (c : cfg) (gout : bool) : calc :=
   let n := K (g_mnvar c * g_nbsimu c) in
-  mkcalc (g_nc c) (simtub_check c gout)
+  mkcalc (g_nc c) [] (simtub_check c gout)
     (pre_interp c ++
      (if g_has_in c then [OAdd WIn 2 L_SIMU n (Cst 0) 4%nat] else []) ++
      [OAdd WOut 1 L_SIMU n (Cst 0) 0%nat] ++
-     (if g_dgm c && gout then [OSaveX; OCenter] else []))
+     (if g_dgm c && gout then [OCenter] else []))
     [OBody 3]
-    ([OClean 2; OExpand (-1) L_F; OExpand (-1) L_NOSTAT;
-      ORename WOut no_names L_Z (K (g_mnvar c)) 0%nat 0 [] (K (g_nbsimu c)) true] ++
+    ([OClean 2] ++ (if ver_bit c 1 then [] else [OExpand (-1) L_F false; OExpand (-1) L_NOSTAT false]) ++
+     [ORename WOut no_names L_Z (K (g_mnvar c)) 0%nat 0 [] (K (g_nbsimu c)) true] ++
      (if g_dgm c then [ORestoreX] else []))
-    (rollback_std (g_dgm c)).
+    (rollback_std c (g_dgm c)).
 
 (* ---------------------------------------------------------------- CalcSimuFFT (CalcSimuFFT.cpp:1048-1104) *)
 Definition simfft_check (c : cfg) (gout : bool) (s : st) : bool :=
   check_interp c s && (0 <? g_nbsimu c) && gout && (g_mnvar c =? 1) && g_extra_ok c.
 Definition simfft (c : cfg) (gout : bool) : calc :=
-  mkcalc (g_nc c) (simfft_check c gout)
+  mkcalc (g_nc c) [] (simfft_check c gout)
     (pre_interp c ++ [OAdd WOut 1 L_SIMU (K (g_nbsimu c)) (Cst 0) 0%nat])
     [OBody 3]
     [OClean 2; ORename WOut no_names L_Z (K 1) 0%nat 0 [] (K (g_nbsimu c)) true]
-    (rollback_std false).
+    (rollback_std c false).
 
 (* ---------------------------------------------------------------- CalcSimpleInterpolation (CalcSimpleInterpolation.cpp:44-105)
    slots 0 _iattEst, 1 _iattStd *)
 Definition simpleint_check (c : cfg) (s : st) : bool :=
   check_interp c s && (locnum (getdb WIn s) L_Z =? 1) && g_extra_ok c.
 Definition simpleint (c : cfg) : calc :=
-  mkcalc (g_nc c) (simpleint_check c)
+  mkcalc (g_nc c) [] (simpleint_check c)
     (pre_interp c ++
      (if g_est c then [OAdd WOut 1 (-1) (K 1) (Cst 0) 0%nat] else []) ++
      (if g_std c then [OAdd WOut 1 (-1) (K 1) (Cst 0) 1%nat] else []))
     [OBody 3]
     [OClean 2; ORename WOut no_names L_Z (K 1) 0%nat 0 s_estim (K 1) true;
      ORename WOut no_names L_Z (K 1) 1%nat 0 s_stdev (K 1) true]
-    (rollback_std false).
+    (rollback_std c false).
 
 (* ---------------------------------------------------------------- CalcGridToGrid (CalcGridToGrid.cpp:60-160)
    g_mode 0: copy/expand/inter, 1: shrink (auxiliary temporary variable); slots 0 _iattOut, 1 _iattAux *)
 Definition g2g_check (c : cfg) (s : st) : bool := g_extra_ok c.
 Definition g2g (c : cfg) : calc :=
-  mkcalc (g_nc c) (g2g_check c)
+  mkcalc (g_nc c) [] (g2g_check c)
     (OAdd WOut 1 (-1) (K 1) (Cst 0) 0%nat :: (if g_mode c =? 1 then [OAdd WOut 2 (-1) (K 1) (Cst 0) 1%nat] else []))
     [OBody 3]
     [OClean 2; ORename WOut no_names L_Z (K 1) 0%nat 0 [] (K 1) true]
-    (rollback_std false).
+    (rollback_std c false).
 
 (* ---------------------------------------------------------------- CalcImage (CalcImage.cpp:44-130)
    g_mode 0: filter (nvar), 1: morpho (g_n variables, qualifier = operation key), 2: smooth *)
@@ -213,7 +220,7 @@ Definition image_check (c : cfg) (s : st) : bool :=
   check_interp c s && d_grid (getdb WIn s) &&
   (if g_mode c =? 0 then 0 <? locnum (getdb WIn s) L_Z else locnum (getdb WIn s) L_Z =? 1) && g_extra_ok c.
 Definition image (c : cfg) (opkey : str) : calc :=
-  mkcalc (g_nc c) (image_check c)
+  mkcalc (g_nc c) [] (image_check c)
     (pre_interp c ++
      [if g_mode c =? 0 then OAdd WOut 1 (-1) (K (g_mnvar c)) (Cst 0) 0%nat
       else if g_mode c =? 1 then OAdd WOut 1 (-1) (K (g_n c)) (Cst 0) 0%nat
@@ -223,14 +230,81 @@ Definition image (c : cfg) (opkey : str) : calc :=
      if g_mode c =? 0 then ORename WOut no_names L_Z nvar_in 0%nat 0 [] (K 1) true
      else if g_mode c =? 1 then ORename WOut no_names L_Z (K 1) 0%nat 0 opkey (K (g_n c)) true
      else ORename WOut no_names L_Z (K 1) 0%nat 0 [] (K 1) true]
-    (rollback_std false).
+    (rollback_std c false).
 
 (* ---------------------------------------------------------------- CalcGlobal (CalcGlobal.cpp:37-78): creates nothing *)
 Definition global_check (c : cfg) (gout : bool) (s : st) : bool :=
   check_interp c s && (if g_mode c =? 0 then gout else true) &&
   (0 <=? g_n c) && (g_n c <? locnum (getdb WIn s) L_Z) && g_extra_ok c.
 Definition global (c : cfg) (gout : bool) : calc :=
-  mkcalc (g_nc c) (global_check c gout) (pre_interp c) [OBody 3] [OClean 2] (rollback_std false).
+  mkcalc (g_nc c) [] (global_check c gout) (pre_interp c) [OBody 3] [OClean 2] (rollback_std c false).
+
+(* ---------------------------------------------------------------- CalcKrigingFactors (CalcKrigingFactors.cpp:35-150)
+   g_iuids = _iuidFactors (the Z-locator variables of dbin when krigingFactors is called), g_dgm = a change of support
+   is defined in the anamorphosis of the model.  _check begins by leaving the Z locator to the first factor only; _run
+   gives it to each factor in turn; _postprocess gives it back to all.  slots 0 _iptrEst, 1 _iptrStd *)
+Definition s_Stat_Fluid : str := [83; 116; 97; 116; 95; 70; 108; 117; 105; 100].
+Definition s_Stat_Cork : str := [83; 116; 97; 116; 95; 67; 111; 114; 107].
+Definition s_Fluid : str := [70; 108; 117; 105; 100].
+Definition s_Date : str := [68; 97; 116; 101].
+Definition krigfac_check (c : cfg) (s : st) : bool := check_interp c s && g_has_in c && g_extra_ok c.
+Definition krigfac (c : cfg) (gout : bool) : calc :=
+  let fs := g_iuids c in
+  let nf := K (zlen fs) in
+  mkcalc (g_nc c)
+    (match fs with [] => [] | f0 :: _ => [OClearLoc WIn L_Z; OSetLocList WIn [f0] L_Z] end)
+    (krigfac_check c)
+    (pre_interp c ++
+     (if g_dgm c then (if gout then [OCenter] else [OFail]) else []) ++
+     (if g_est c then [OAdd WOut 1 (-1) nf (Cst 0) 0%nat] else []) ++
+     (if g_std c then [OAdd WOut 1 (-1) nf (Cst 0) 1%nat] else []))
+    (match rev fs with [] => [] | fl :: _ => [OClearLoc WIn L_Z; OSetLocList WIn [fl] L_Z] end ++ [OBody 3])
+    ([OClean 2; OSetLocList WIn fs L_Z;
+      ORename WOut no_names L_Z nf 1%nat 0 s_stdev (K 1) true; ORename WOut no_names L_Z nf 0%nat 0 s_estim (K 1) true] ++
+     (if g_dgm c then [ORestoreX] else []))
+    ([OClean 1] ++ (if g_rb2 c then [OClean 2] else []) ++
+     (if ver_bit c 0 then [OSetLocList WIn fs L_Z; ORestoreX] else [])).
+
+(* ---------------------------------------------------------------- CalcSimuPost (CalcSimuPost.cpp:45-165)
+   g_mode 0: statistics stored in dbin itself (dbout = dbin: aliased), 1: upscaling to the grid dbout; g_n = _getNVarout();
+   the qualifiers "Var<i>.<stat>" are given by the caller.  No _cleanVariableDb(2) in _postprocess. *)
+Definition simupost_check (c : cfg) (gout : bool) (s : st) : bool :=
+  (if g_mode c =? 1 then gout else true) && (ndim (getdb WIn s) <=? ndim (getdb WOut s)) && g_extra_ok c.
+Definition simupost (c : cfg) (gout : bool) (quals : list str) : calc :=
+  let w := if g_mode c =? 1 then WOut else WIn in
+  mkcalc (g_nc c) [] (simupost_check c gout)
+    [OAdd w 1 (-1) (K (g_n c)) (Cst 0) 0%nat]
+    [OBody 3]
+    (map (fun p => ORename w no_names (-1) (K 0) 0%nat (Z.of_nat (fst p)) (snd p) (K 1) true)
+         (combine (seq 0 (length quals)) quals))
+    (rollback_std c false).
+
+(* ---------------------------------------------------------------- CalcSimuPartition (CalcSimuPartition.cpp:236-300) and
+   CalcSimuSubstitution (CalcSimuSubstitution.cpp:330-383): no dbin, one variable with the SIMU locator *)
+Definition simu1_check (c : cfg) (gout : bool) (s : st) : bool := check_interp c s && (0 <? g_nbsimu c) && gout && g_extra_ok c.
+Definition simu1 (c : cfg) (gout : bool) : calc :=
+  mkcalc (g_nc c) [] (simu1_check c gout)
+    (pre_interp c ++ [OAdd WOut 1 L_SIMU (K 1) (Cst 0) 0%nat])
+    [OBody 3]
+    [OClean 2; ORename WOut no_names L_Z (K 1) 0%nat 0 [] (K (g_nbsimu c)) true]
+    (rollback_std c false).
+
+(* ---------------------------------------------------------------- CalcSimuEden (CalcSimuEden.cpp:960-1040)
+   g_mode 1: _niter > 1 (statistics), g_n = _nfluids, g_nbsimu = _niter;
+   slots 0 _iptrStatFluid, 1 _iptrStatCork, 2 _iptrFluid, 3 _iptrDate *)
+Definition eden_check (c : cfg) (gout : bool) (s : st) : bool := check_interp c s && (0 <? g_nbsimu c) && gout && g_extra_ok c.
+Definition eden (c : cfg) (gout : bool) : calc :=
+  mkcalc (g_nc c) [] (eden_check c gout)
+    (pre_interp c ++
+     (if g_mode c =? 1 then [OAdd WOut 1 (-1) (K (g_n c)) (Cst 0) 0%nat; OAdd WOut 1 (-1) (K 1) (Cst 0) 1%nat] else []) ++
+     [OAdd WOut 1 (-1) (K 1) (Cst 0) 2%nat; OAdd WOut 1 (-1) (K 1) (Cst 1) 3%nat])
+    [OBody 3]
+    [OClean 2;
+     ORename WOut no_names L_Z (K 1) 0%nat 0 s_Stat_Fluid (K (g_nbsimu c)) true;
+     ORename WOut no_names L_Z (K 1) 1%nat 0 s_Stat_Cork (K (g_nbsimu c)) true;
+     ORename WOut no_names L_Z (K 1) 2%nat 0 s_Fluid (K 1) true;
+     ORename WOut no_names L_Z (K 1) 3%nat 0 s_Date (K 1) true]
+    (rollback_std c false).
 
 (* dispatch used by Run.v: calculator number -> instance *)
 Definition instance (id : Z) (c : cfg) (gout : bool) (aux : list str) : calc :=
@@ -243,4 +317,8 @@ Definition instance (id : Z) (c : cfg) (gout : bool) (aux : list str) : calc :=
   else if id =? 6 then simpleint c
   else if id =? 7 then g2g c
   else if id =? 8 then image c (nth 0 aux [])
-  else global c gout.
+  else if id =? 9 then global c gout
+  else if id =? 10 then krigfac c gout
+  else if id =? 11 then simupost c gout aux
+  else if id =? 12 then simu1 c gout
+  else eden c gout.
